@@ -115,7 +115,7 @@ impl Property for C09Prop {
         "random sequences of <= 14 (quick) / <= 24 (thorough) instructions added one by one: 70% definitions over the 8 definition kinds (named, unnamed and non-identifier PRAGMA EXTERN, DECLARE, DEFFRAME, DEFWAVEFORM, DEFCAL, DEFCAL MEASURE, DEFGATE, DEFCIRCUIT; keys from small pools, several values per key), 30% body instructions. Non-trivial = has a PRAGMA EXTERN and a redefinition; distinct by sequence hash."
     }
     fn max_words(&self) -> usize {
-        24 * 8 + 4
+        2 * (24 * 8 + 4)
     }
     fn cases(&self, tier: Tier) -> u64 {
         tier.pick(60_000, 1_500_000)
